@@ -456,3 +456,39 @@ def _multi(C, vals):
     o = C(np.asarray(vals[0], dtype=float).copy())
     o.data = [np.asarray(v, dtype=float).copy() for v in vals]
     return o
+
+
+def C17():
+    import io
+    S, b = _sm(), _b()
+    out = []
+
+    def pr(name, T, **kw):
+        def f(env):
+            fo = io.StringIO()
+            r = getattr(b, name)(T.copy(), file=fo, **kw)
+            return [r, fo.getvalue()]
+        return f
+
+    def pl(X, **kw):
+        def f(env):
+            fo = io.StringIO()
+            X().printline(file=fo, **kw)
+            return fo.getvalue()
+        return f
+    KW = [{}, {'fmt': '{:.4f}'}, {'fmt': '{:.2g}', 'unit': 'rad'}, {'unit': 'rad'}, {'degsym': False}, {'orient': 'eul'}, {'orient': 'eul', 'fmt': '{:.5f}'}, {'orient': 'eul', 'degsym': False},
+          {'orient': 'angvec'}, {'orient': 'angvec', 'fmt': '{:.4f}'}, {'orient': 'rpy/xyz'}, {'label': 'T'}]
+    for kw in KW:
+        tag = ','.join('%s=%s' % kv for kv in kw.items()) or 'default'
+        out.append(('trprint(T1, %s)' % tag, pr('trprint', T1, **kw)))
+        out.append(('trprint(R2, %s)' % tag, pr('trprint', R2, **kw)))
+        out.append(('SE3.printline(%s)' % tag, pl(lambda: S.SE3(T1.copy()), **kw)))
+    for kw in ({}, {'fmt': '{:.4f}'}, {'unit': 'rad'}, {'label': 'T'}, {'unit': 'rad', 'fmt': '{:.2g}'}):
+        tag = ','.join('%s=%s' % kv for kv in kw.items()) or 'default'
+        out.append(('trprint2(t1, %s)' % tag, pr('trprint2', t1, **kw)))
+        out.append(('SE2.printline(%s)' % tag, pl(lambda: S.SE2(t1.copy()), **kw)))
+    for nm, f in (('str(SE3)', lambda: str(S.SE3(T1.copy()))), ('str(SO2)', lambda: str(S.SO2(r1.copy()))), ('str(UQ)', lambda: str(S.UnitQuaternion(R1.copy()))), ('str(Twist3)', lambda: str(S.Twist3(S6a.copy()))),
+                  ('repr(SE3)', lambda: repr(S.SE3(T1.copy()))), ('str(Plucker)', lambda: str(S.Plucker.PQ([1.0, 2, 3], [4.0, 6, 9]))), ('str(Q)', lambda: str(S.Quaternion([1.0, 2, 3, 4]))),
+                  ('np.array2string', lambda: np.array2string(np.array([1.23456789, 2.0]))), ('removesmall', lambda: b.removesmall(T1 * 1e-15 + np.eye(4)))):
+        out.append((nm, lambda env, f=f: f()))
+    return out
